@@ -11,15 +11,18 @@ NPOOL = 120
 # assign / cmp), Probe (C05) a 24-byte type with constructor and destructor
 _BLOBS = ["00" * 16, "01" + "00" * 15, "00" * 15 + "01", "ff" * 16, "00" * 8 + "ff" * 8, "0102030405060708090a0b0c0d0e0f10", "7f" + "00" * 14 + "80"]
 _TRIS = ["000000", "000001", "010000", "ffffff", "00ff00", "616263", "7f0080"]
-ZERO = {"Int": "i:0", "Blob": "b:" + "00" * 16, "Tri": "c:000000"}            # what a zero-filled element reads as
-SENT1 = {"Int": "i:9", "String": "s:39", "Probe": "p:9", "Blob": "b:" + "39" * 16, "Tri": "c:393939"}
-SENT2 = {"Int": "i:77", "String": "s:7777", "Probe": "p:77", "Blob": "b:" + "77" * 16, "Tri": "c:777777"}
+# 20 bytes: larger than a machine word and not a multiple of it (a word-wise copy or swap leaves a tail)
+_B20S = ["00" * 20, "00" * 19 + "01", "01" + "00" * 19, "ff" * 20, "00" * 16 + "01020304", "00" * 8 + "ff" * 12, "0102030405060708090a0b0c0d0e0f1011121314"]
+ZERO = {"Int": "i:0", "Blob": "b:" + "00" * 16, "Tri": "c:000000", "Blob20": "b20:" + "00" * 20}            # what a zero-filled element reads as
+SENT1 = {"Int": "i:9", "String": "s:39", "Probe": "p:9", "Blob": "b:" + "39" * 16, "Tri": "c:393939", "Blob20": "b20:" + "39" * 20}
+SENT2 = {"Int": "i:77", "String": "s:7777", "Probe": "p:77", "Blob": "b:" + "77" * 16, "Tri": "c:777777", "Blob20": "b20:" + "77" * 20}
 UNIVERSE = {
     "Int": ["i:%d" % v for v in (-3, -2, -1, 0, 1, 2, 3, 2**31, -2**63, 2**63 - 1, 1000, 12345)],
     "String": ["s:" + b.hex() for b in (b"", b"a", b"b", b"ab", b"abc", b"\x80", b"zz", b"a b", b"zzz")],
     "Probe": ["p:%d" % v for v in (0, 1, 2, 3, 4, 5, 6, 99)],
     "Blob": ["b:" + h for h in _BLOBS] + ["b:" + "42" * 16],
     "Tri": ["c:" + h for h in _TRIS] + ["c:424242"],
+    "Blob20": ["b20:" + h for h in _B20S] + ["b20:" + "42" * 20],
 }
 
 
@@ -34,13 +37,15 @@ def elem_values(et):
         return st.sampled_from(_BLOBS).map(lambda h: "b:" + h)
     if et == "Tri":
         return st.sampled_from(_TRIS).map(lambda h: "c:" + h)
+    if et == "Blob20":
+        return st.sampled_from(_B20S).map(lambda h: "b20:" + h)
     raise HarnessBug(et)
 
 
 def val_order(lit):
     if lit[0] in "ip":
         return int(lit[2:])
-    return bytes.fromhex(lit[2:])
+    return bytes.fromhex(lit.split(":", 1)[1])
 
 
 @st.composite
@@ -49,7 +54,7 @@ def seq_case(draw, kinds=("Array", "List", "Tuple"), ets=("Int", "String"), max_
     plain sort, push_at with i == len (also on an empty container), large concat / assign sources, assign from a Range"""
     kind = draw(st.sampled_from(kinds))
     if ext and tuple(ets) == ("Int", "String"):
-        ets = ("Int", "String", "Int", "String", "Blob", "Tri")
+        ets = ("Int", "String", "Int", "String", "Blob", "Tri", "Blob20")
     et = draw(st.sampled_from(ets))
     vals = elem_values(et)
     ops = []
